@@ -22,6 +22,8 @@ use trust_runtime::value::Value;
 
 #[path = "c01/obs.rs"]
 pub mod obs;
+#[path = "c01/obs2.rs"]
+pub mod obs2;
 
 // ------------------------------------------------------------------------------------------
 // AST (mirrors lean/TrustVerif/Model/StCore.lean)
@@ -3236,6 +3238,8 @@ pub fn matrix_programs() -> Vec<(String, Program)> {
     out.extend(boundary_programs());
     out.extend(loop_control_programs());
     out.extend(short_circuit_programs());
+    out.extend(precedence_programs());
+    out.extend(defect_position_programs());
     out
 }
 
@@ -3449,6 +3453,214 @@ pub fn short_circuit_programs() -> Vec<(String, Program)> {
     out
 }
 
+/// Operator-pair precedence matrix: for every ordered pair of operators that can be adjacent
+/// (binary inside binary on either side, prefix operator before / after a binary operator, prefix
+/// operator over a binary operand) one program whose source is printed with the MINIMAL
+/// parentheses table 71 of docs/specs/05-expressions.md allows.  The syntax tree sent to the model
+/// is the intended one, so a parser that groups differently computes another value.  Operand values
+/// are chosen so that the two groupings differ (non-commutative operators, even exponent).
+pub fn precedence_programs() -> Vec<(String, Program)> {
+    use BinOp::*;
+    let dint = Ty::Int(IKind::DInt);
+    let ops = [Or, Xor, And, Eq, Ne, Lt, Le, Gt, Ge, Add, Sub, Mul, Div, Mod, Pow];
+    #[derive(Clone, Copy, PartialEq)]
+    enum T { I, B }
+    let operand_ty = |op: BinOp| -> Vec<T> {
+        match op {
+            Or | Xor | And => vec![T::B],
+            Eq | Ne => vec![T::I, T::B],
+            Lt | Le | Gt | Ge => vec![T::I],
+            _ => vec![T::I],
+        }
+    };
+    let result_ty = |op: BinOp| match op {
+        Add | Sub | Mul | Div | Mod | Pow => T::I,
+        _ => T::B,
+    };
+    let ileaf = ["x7", "x3", "x2"];
+    let bleaf = ["p1", "p0", "q1"];
+    let leaf = |t: T, i: usize| v(if t == T::I { ileaf[i] } else { bleaf[i] });
+    let decls = || {
+        vec![
+            tdecl("x7", dint, 7), tdecl("x3", dint, 3), tdecl("x2", dint, 2),
+            VarDecl { name: "p1".into(), ty: Ty::Bool, init: 1, typed_init: false, has_init: true },
+            VarDecl { name: "p0".into(), ty: Ty::Bool, init: 0, typed_init: false, has_init: true },
+            VarDecl { name: "q1".into(), ty: Ty::Bool, init: 1, typed_init: false, has_init: true },
+            tdecl("ri", dint, 0),
+            VarDecl { name: "rb".into(), ty: Ty::Bool, init: 0, typed_init: false, has_init: true },
+        ]
+    };
+    let store = |t: T, e: Expr| asg(if t == T::I { "ri" } else { "rb" }, e);
+    let mut out = Vec::new();
+    for &o in &ops {
+        for &i in &ops {
+            if o == Pow && i == Pow {
+                continue; // nested `**`: recorded finding (parsed right-associatively), always parenthesised
+            }
+            let it = result_ty(i);
+            if !operand_ty(o).contains(&it) {
+                continue;
+            }
+            for &inner_operand in &operand_ty(i) {
+                // the inner operator on the left and on the right of the outer one
+                let inner = |a: usize, b: usize| bin(i, leaf(inner_operand, a), leaf(inner_operand, b));
+                out.push((
+                    format!("prec-{}-{}-left-{}", o.word(), i.word(), if inner_operand == T::I { "i" } else { "b" }),
+                    plain(decls(), vec![store(result_ty(o), bin(o, inner(0, 1), leaf(it, 2)))]),
+                ));
+                out.push((
+                    format!("prec-{}-{}-right-{}", o.word(), i.word(), if inner_operand == T::I { "i" } else { "b" }),
+                    plain(decls(), vec![store(result_ty(o), bin(o, leaf(it, 0), inner(1, 2)))]),
+                ));
+            }
+        }
+    }
+    // prefix operators
+    for &o in &ops {
+        for &t in &operand_ty(o) {
+            let un = |e: Expr| if t == T::I { neg(e) } else { Expr::Un(UnOp::Not, Box::new(e)) };
+            // prefix operator on the left / right operand
+            out.push((format!("prec-{}-prefix-left-{}", o.word(), if t == T::I { "i" } else { "b" }),
+                plain(decls(), vec![store(result_ty(o), bin(o, un(leaf(t, 1)), leaf(t, 2)))])));
+            out.push((format!("prec-{}-prefix-right-{}", o.word(), if t == T::I { "i" } else { "b" }),
+                plain(decls(), vec![store(result_ty(o), bin(o, leaf(t, 0), un(leaf(t, 2))))])));
+        }
+        // prefix operator over the whole binary expression
+        let rt = result_ty(o);
+        let t0 = operand_ty(o)[0];
+        let whole = bin(o, leaf(t0, 0), leaf(t0, 1));
+        let e = if rt == T::I { neg(whole) } else { Expr::Un(UnOp::Not, Box::new(whole)) };
+        out.push((format!("prec-prefix-over-{}", o.word()), plain(decls(), vec![store(rt, e)])));
+    }
+    // double prefix
+    out.push(("prec-neg-neg".into(), plain(decls(), vec![store(T::I, neg(neg(v("x3"))))])));
+    out.push(("prec-not-not".into(), plain(decls(), vec![store(T::B, Expr::Un(UnOp::Not, Box::new(Expr::Un(UnOp::Not, Box::new(v("p0"))))))])));
+    out
+}
+
+/// Defect-position matrix: one ill-formed expression (a value of the wrong family, or an undefined
+/// name) planted in EVERY syntactic position that holds an expression — conditions of IF / ELSIF /
+/// WHILE / UNTIL, CASE selector, FOR start / end / step, right-hand sides in every kind of branch,
+/// array subscripts, call arguments (positional, named, `=>`), RETURN values — in programs whose
+/// first cycle REACHES the position.  The real compiler must reject every one of them; if it
+/// accepts one, the cycle runs into the defect and the C01 oracle has its failing input.
+pub fn defect_position_programs() -> Vec<(String, Program)> {
+    let dint = Ty::Int(IKind::DInt);
+    let mut out = Vec::new();
+    let f0 = FuncDef {
+        name: "F0".into(),
+        ret: dint,
+        params: vec![
+            Param { name: "pa0".into(), ty: dint, dir: Dir::In, default: None },
+            Param { name: "po0".into(), ty: dint, dir: Dir::Out, default: None },
+        ],
+        locals: Vec::new(),
+        body: vec![asg("po0", v("pa0")), asg("F0", v("pa0"))],
+    };
+    let fb0 = FbDef {
+        name: "FB0".into(),
+        params: vec![
+            Param { name: "in0".into(), ty: dint, dir: Dir::In, default: None },
+            Param { name: "out0".into(), ty: dint, dir: Dir::Out, default: None },
+        ],
+        vars: Vec::new(),
+        body: vec![asg("out0", v("in0"))],
+    };
+    // (defect name, expression for a BOOL position, expression for an integer position)
+    let defects: Vec<(&str, Expr, Expr)> = vec![
+        ("family", v("d"), v("t")),
+        ("undefined", v("nosuch"), v("nosuch")),
+        ("ok", v("t"), v("d")), // the well-formed base: must be accepted and run clean
+    ];
+    let one = || lit(1);
+    let set = |n: i128| vec![asg("d", lit(n))];
+    for (dname, xb, xi) in &defects {
+        let xb = || xb.clone();
+        let xi = || xi.clone();
+        let mut add = |pos: &str, stage: u8, body: Vec<Stmt>| {
+            let decls = vec![
+                VarDecl { name: "d".into(), ty: dint, init: 1, typed_init: false, has_init: true },
+                VarDecl { name: "e".into(), ty: dint, init: 0, typed_init: false, has_init: true },
+                VarDecl { name: "i".into(), ty: dint, init: 0, typed_init: false, has_init: true },
+                VarDecl { name: "b".into(), ty: Ty::Bool, init: 0, typed_init: false, has_init: true },
+                VarDecl { name: "t".into(), ty: Ty::Bool, init: 1, typed_init: false, has_init: true },
+            ];
+            let prog = Program {
+                funcs: if stage == 4 { vec![f0.clone()] } else { Vec::new() },
+                fbs: if stage == 5 { vec![fb0.clone()] } else { Vec::new() },
+                insts: if stage == 5 { vec![("c0".to_string(), "FB0".to_string())] } else { Vec::new() },
+                aggs: if stage == 3 { vec![("ar".to_string(), AggDecl::Arr(0, 3, dint))] } else { Vec::new() },
+                decls,
+                body,
+            };
+            out.push((format!("defect-{dname}-{pos}"), prog));
+        };
+        let no_elif: Vec<(Expr, Vec<Stmt>)> = Vec::new();
+        add("if-cond", 2, vec![Stmt::If(xb(), set(2), no_elif.clone(), Vec::new())]);
+        add("elsif-cond", 2, vec![Stmt::If(v("b"), set(2), vec![(xb(), set(3))], Vec::new())]);
+        add("elsif2-cond", 2, vec![Stmt::If(v("b"), set(2), vec![(v("b"), set(3)), (xb(), set(4))], set(5))]);
+        add("then-stmt", 2, vec![Stmt::If(v("t"), vec![asg("e", xi())], no_elif.clone(), Vec::new())]);
+        add("elsif-stmt", 2, vec![Stmt::If(v("b"), set(2), vec![(v("t"), vec![asg("e", xi())])], Vec::new())]);
+        add("else-stmt", 2, vec![Stmt::If(v("b"), set(2), no_elif.clone(), vec![asg("e", xi())])]);
+        let lab = |n: i128| vec![Label::Single(LabLit { ty: None, v: n })];
+        add("case-selector", 2, vec![Stmt::Case(xi(), vec![(lab(1), set(2))], set(3))]);
+        add("case-branch-stmt", 2, vec![Stmt::Case(v("d"), vec![(lab(1), vec![asg("e", xi())])], set(3))]);
+        add("case-else-stmt", 2, vec![Stmt::Case(v("d"), vec![(lab(7), set(2))], vec![asg("e", xi())])]);
+        add("for-start", 2, vec![Stmt::For("i".into(), xi(), lit(3), None, vec![asg("e", lit(2))])]);
+        add("for-end", 2, vec![Stmt::For("i".into(), one(), xi(), None, vec![asg("e", lit(2))])]);
+        add("for-step", 2, vec![Stmt::For("i".into(), one(), lit(3), Some(xi()), vec![asg("e", lit(2))])]);
+        add("for-body-stmt", 2, vec![Stmt::For("i".into(), one(), lit(2), None, vec![asg("e", xi())])]);
+        add("while-cond", 2, vec![Stmt::While(xb(), vec![asg("e", lit(2)), Stmt::Exit])]);
+        add("while-body-stmt", 2, vec![Stmt::While(v("t"), vec![asg("e", xi()), Stmt::Exit])]);
+        add("until-cond", 2, vec![Stmt::Repeat(vec![asg("e", lit(2))], xb())]);
+        add("repeat-body-stmt", 2, vec![Stmt::Repeat(vec![asg("e", xi())], v("t"))]);
+        add("assign-int", 2, vec![asg("e", xi())]);
+        add("assign-bool", 2, vec![asg("b", xb())]);
+        add("operand-arith", 2, vec![asg("e", bin(BinOp::Add, v("d"), xi()))]);
+        add("operand-compare", 2, vec![asg("b", bin(BinOp::Lt, xi(), v("d")))]);
+        add("operand-logic", 2, vec![asg("b", bin(BinOp::And, v("t"), xb()))]);
+        add("operand-not", 2, vec![asg("b", Expr::Un(UnOp::Not, Box::new(xb())))]);
+        add("operand-neg", 2, vec![asg("e", neg(xi()))]);
+        add("index-read", 3, vec![asg("e", Expr::Idx("ar".into(), Box::new(xi())))]);
+        add("index-write", 3, vec![Stmt::AssignIdx("ar".into(), xi(), one())]);
+        add("element-value", 3, vec![Stmt::AssignIdx("ar".into(), one(), xi())]);
+        let arg = |name: Option<&str>, arrow: bool, e: Expr| Arg { name: name.map(|s| s.to_string()), arrow, e };
+        add("call-arg-positional", 4, vec![asg("e", Expr::Call("F0".into(), vec![arg(None, false, xi()), arg(None, false, v("i"))]))]);
+        add("call-arg-named", 4, vec![asg("e", Expr::Call("F0".into(), vec![arg(Some("pa0"), false, xi())]))]);
+        add("call-arg-out-target", 4, vec![asg("e", Expr::Call("F0".into(), vec![arg(Some("pa0"), false, one()), arg(Some("po0"), true, if *dname == "ok" { v("i") } else if *dname == "family" { v("t") } else { v("nosuch") })]))]);
+        add("call-in-condition", 4, vec![Stmt::If(v("b"), set(2), vec![(bin(BinOp::Gt, Expr::Call("F0".into(), vec![arg(Some("pa0"), false, xi())]), lit(0)), set(3))], Vec::new())]);
+        add("fb-arg-named", 5, vec![Stmt::FbCall("c0".into(), vec![arg(Some("in0"), false, xi())])]);
+        add("fb-arg-out-target", 5, vec![Stmt::FbCall("c0".into(), vec![arg(Some("in0"), false, one()), arg(Some("out0"), true, if *dname == "ok" { v("i") } else if *dname == "family" { v("t") } else { v("nosuch") })])]);
+    }
+    // wrong argument counts (positional) in a plain statement and inside an ELSIF condition
+    let arg = |e: Expr| Arg { name: None, arrow: false, e };
+    for (pos, body) in [
+        ("stmt", vec![asg("e", Expr::Call("F0".into(), vec![arg(lit(1))]))]),
+        (
+            "elsif-cond",
+            vec![Stmt::If(
+                v("b"),
+                vec![asg("e", lit(2))],
+                vec![(bin(BinOp::Gt, Expr::Call("F0".into(), vec![arg(lit(1))]), lit(0)), vec![asg("e", lit(3))])],
+                Vec::new(),
+            )],
+        ),
+    ] {
+        out.push((
+            format!("defect-argcount-{pos}"),
+            Program {
+                funcs: vec![f0.clone()], fbs: Vec::new(), insts: Vec::new(), aggs: Vec::new(),
+                decls: vec![
+                    VarDecl { name: "e".into(), ty: dint, init: 0, typed_init: false, has_init: true },
+                    VarDecl { name: "b".into(), ty: Ty::Bool, init: 0, typed_init: false, has_init: true },
+                ],
+                body,
+            },
+        ));
+    }
+    out
+}
+
 fn emit_raw(out: &mut Out, n: u64, id: &str, source: &str) {
     out.line(format!("case {n}"));
     out.line(format!("tag witness raw-{id}"));
@@ -3482,6 +3694,9 @@ pub fn run_focus(args: &Args, focus: Focus) -> i32 {
         }
         return 0;
     }
+    if let Some(path) = args.extra.get("deadline-src") {
+        return obs2::deadline_child(path, args.extra_usize("budget-ms", 150) as u64);
+    }
     let ws = witnesses();
     let raws = raw_witnesses();
     let children = child_witnesses();
@@ -3503,7 +3718,36 @@ pub fn run_focus(args: &Args, focus: Focus) -> i32 {
     // oracle-only streams (src/c01/obs.rs): the C03 mix has more histories, the others more frame cases
     let frames_cases = args.extra_usize("frames-cases", if focus == Focus::C03 { 60 } else { 150 }) as u64;
     let history_cases = args.extra_usize("history-cases", if focus == Focus::C03 { 250 } else { 40 }) as u64;
+    let eno_cases = args.extra_usize("eno-cases", 60) as u64;
+    let mdim_cases = args.extra_usize("mdim-cases", 60) as u64;
+    let stdlib_cases = args.extra_usize("stdlib-cases", if focus == Focus::C03 { 120 } else { 30 }) as u64;
+    let debug_cases = args.extra_usize("debug-cases", if focus == Focus::C03 { 120 } else { 20 }) as u64;
+    let aoff_cases = args.extra_usize("aoff-cases", if focus == Focus::C02 { 120 } else { 20 }) as u64;
     for n in args.case_numbers() {
+        if n >= obs2::AOFF_BASE {
+            obs2::emit_aoff_case(&mut out, args.seed, n);
+            continue;
+        }
+        if n >= obs2::DEBUG_BASE {
+            obs2::emit_debug_case(&mut out, args.seed, n);
+            continue;
+        }
+        if n >= obs2::STDLIB_BASE {
+            obs2::emit_stdlib_case(&mut out, args.seed, n);
+            continue;
+        }
+        if n >= obs2::MDIM_BASE {
+            obs2::emit_mdim_case(&mut out, args.seed, n);
+            continue;
+        }
+        if n >= obs2::ENO_BASE {
+            obs2::emit_eno_case(&mut out, args.seed, n, cycles);
+            continue;
+        }
+        if n >= obs2::DEADLINE_BASE {
+            obs2::emit_deadline_case(&mut out, n);
+            continue;
+        }
         if n >= obs::HIST_BASE {
             obs::emit_history_case(&mut out, args.seed, n);
             continue;
@@ -3562,6 +3806,26 @@ pub fn run_focus(args: &Args, focus: Focus) -> i32 {
         }
         for i in 0..history_cases {
             obs::emit_history_case(&mut out, args.seed, obs::HIST_BASE + i);
+        }
+        if focus == Focus::C01 {
+            for i in 0..obs2::deadline_programs().len() as u64 {
+                obs2::emit_deadline_case(&mut out, obs2::DEADLINE_BASE + i);
+            }
+        }
+        for i in 0..eno_cases {
+            obs2::emit_eno_case(&mut out, args.seed, obs2::ENO_BASE + i, cycles);
+        }
+        for i in 0..mdim_cases {
+            obs2::emit_mdim_case(&mut out, args.seed, obs2::MDIM_BASE + i);
+        }
+        for i in 0..stdlib_cases {
+            obs2::emit_stdlib_case(&mut out, args.seed, obs2::STDLIB_BASE + i);
+        }
+        for i in 0..debug_cases {
+            obs2::emit_debug_case(&mut out, args.seed, obs2::DEBUG_BASE + i);
+        }
+        for i in 0..aoff_cases {
+            obs2::emit_aoff_case(&mut out, args.seed, obs2::AOFF_BASE + i);
         }
     }
     out.finish(&args.out);
